@@ -460,6 +460,10 @@ func (fc *funcContext) ResolveGoto(from, to *gotoLabelDesc, index int) {
 		varName := fc.Block.LocalVars.Names()[len(fc.Block.LocalVars.Names())-1]
 		raiseCompileError(fc, to.Line+1, "<goto %s> at line %d jumps into the scope of local '%s'", to.Name, from.Line, varName)
 	}
+	// the CLOSE emitted in front of the jump closes exactly the upvalues of locals that go out of
+	// scope: those above the locals active at the label (the placeholder operand 0 would close
+	// every open upvalue of the function, also those of variables that stay in scope)
+	fc.Code.SetA(from.Pc-1, to.NumActiveLocalVars)
 	fc.Code.SetSbx(from.Pc, to.Id)
 	delete(fc.unresolvedGotos, index)
 }
@@ -1823,7 +1827,7 @@ func patchCode(context *funcContext) { // {{{
 			continue
 		case OP_SETGLOBAL, OP_SETUPVAL, OP_EQ, OP_LT, OP_LE, OP_TEST,
 			OP_TAILCALL, OP_RETURN, OP_FORPREP,
-			OP_SETLIST, OP_CLOSE:
+			OP_SETLIST:
 			/* nothing to do */
 		case OP_FORLOOP: // writes the loop variable R(A+3)
 			if reg := opGetArgA(inst) + 3; reg > maxreg {
